@@ -461,6 +461,7 @@ type c06Consumer struct {
 	mutKind    int
 	async      bool // the declared mutation happens in a later task, after Consume returned
 	undeclared bool // a non-mutating consumer tries to mutate anyway
+	cancels    bool // the (failing) consumer ends the request's context from inside its call
 	// observations
 	calls    int
 	held     any
@@ -540,6 +541,16 @@ func runC06(r *simkit.Run) {
 	for i, c := range cs {
 		errs[i] = errOf(c)
 	}
+	// the request's context: it may end while the fan-out is under way (a consumer that fails and gives up on the
+	// request) or be over already when the payload arrives; every consumer is invoked all the same
+	reqCtx, cancelReq := context.WithCancel(context.Background())
+	defer cancelReq()
+	for _, c := range cs {
+		if c.fail && tp.Chance(1, 3) {
+			c.cancels = true
+		}
+	}
+	deadOnEntry := tp.Chance(1, 12)
 	handle := func(c *c06Consumer, x any) error {
 		c.calls++
 		c.held = x
@@ -581,6 +592,10 @@ func runC06(r *simkit.Run) {
 				}()
 				p.mutate(x, w, c.mutKind)
 			}()
+		}
+		if c.cancels {
+			r.Count("fault.request_context_cancelled_during_fan_out")
+			cancelReq()
 		}
 		if c.fail {
 			r.Count("fault.consumer_error")
@@ -629,7 +644,11 @@ func runC06(r *simkit.Run) {
 		r.Failf("capability", "fanout", "fan-out over %v advertises MutatesData=%v, expected %v", desc, fan.caps().MutatesData, wantCap)
 	}
 	var err error
-	r.Fire("consume", func() { err = fan.consume(context.Background(), payload) })
+	if deadOnEntry {
+		r.Count("fault.request_context_over_on_entry")
+		cancelReq()
+	}
+	r.Fire("consume", func() { err = fan.consume(reqCtx, payload) })
 	// later tasks of declared-mutating consumers, in tape order
 	for len(later) > 0 {
 		k := tp.Draw(len(later))
